@@ -15,6 +15,7 @@ from ...entity_query_language.symbol_graph import (
 
 if TYPE_CHECKING:
     from .property_descriptor import PropertyDescriptor
+    from ...entity_query_language.predicate import Symbol
 
 
 @dataclass(unsafe_hash=True)
@@ -121,22 +122,34 @@ class PropertyDescriptorRelation(PredicateClassRelation):
         """
         if not self.role_taker_fields:
             return
-        role_taker = getattr(
-            self.source.instance, self.source_role_taker_association.field.public_name
-        )
-        role_taker = SymbolGraph().ensure_wrapped_instance(role_taker)
+        role_taker = SymbolGraph().ensure_wrapped_instance(self.source_role_taker)
         yield from ((role_taker, f) for f in self.role_taker_fields)
+
+    @property
+    def source_role_taker(self) -> Optional[Symbol]:
+        """
+        Return the role taker of the source if it exists (not cached: the relation must not keep it alive).
+        """
+        if not self.source_role_taker_association:
+            return None
+        return getattr(
+            self.source.instance,
+            self.source_role_taker_association.field.public_name,
+            None,
+        )
 
     @cached_property
     def role_taker_fields(self) -> List[WrappedField]:
         """
-        Return the role taker fields of the source role taker association.
+        Return the super property fields of the role taker of the source, looked up on the class of the role taker
+        itself: it may be a subclass of the declared role taker type that carries the fields.
         """
-        if not self.source_role_taker_association:
+        role_taker = self.source_role_taker
+        if role_taker is None:
             return []
         return list(
             self.property_descriptor_cls.get_fields_of_superproperties(
-                self.source_role_taker_association.target
+                type(role_taker)
             )
         )
 
